@@ -21,15 +21,16 @@
    logged: notifications at the head of inflight are handled as soon as possible (Drain; sound
    because the server handles messages in order and a notification has no reply), a "resp" event
    is the Handle step of the oldest request, a "pub" event is a Publish step of SOME matching owed
-   publication (TLC branches when several match).  A branch that cannot take the next event
+   publication (TLC branches when several match); at the end FinalPublishFresh is checked on what
+   is observable: the ranges of the last publication per uri.  A branch that cannot take the next event
    stops and prints <<"AT", trace, events matched, reason>>; an unacceptable reply to a request is
    printed the same way but the walk continues; a branch that consumes the whole trace and ends
    Quiescent prints <<"DONE", trace>>.  A trace is accepted iff some branch is DONE and nothing
    was reported for it. *)
 EXTENDS LspServer, Json
 Traces == ndJsonDeserialize("traces.ndjson")
-VARIABLES tr, pos, stuck
-tvars == <<tr, pos, stuck>>
+VARIABLES tr, pos, stuck, lastPub     \* lastPub: uri -> ranges of the last publication read
+tvars == <<tr, pos, stuck, lastPub>>
 
 Events == Traces[tr].ev
 
@@ -58,13 +59,13 @@ ReplyWhy(d, m, e) ==
                ELSE IF CRLFLineStartT(Expand(doc.text), PosTab(Expand(doc.text)), m.l, m.c)
                     THEN "crlf-linestart:completion" ELSE "completion"
 
-TInit == tr \in 1..Len(Traces) /\ pos = 0 /\ stuck = "" /\ docs = <<>> /\ inflight = <<>> /\ owed = {} /\ wire = <<>> /\ sent = 0
+TInit == tr \in 1..Len(Traces) /\ pos = 0 /\ stuck = "" /\ lastPub = <<>> /\ docs = <<>> /\ inflight = <<>> /\ owed = {} /\ wire = <<>> /\ sent = 0
 
-Stop(why) == stuck' = why /\ UNCHANGED <<tr, pos, docs, inflight, owed, wire, sent>>
+Stop(why) == stuck' = why /\ UNCHANGED <<tr, pos, lastPub, docs, inflight, owed, wire, sent>>
 
 Send(e) == /\ inflight' = Append(inflight, MsgOf(e))
            /\ sent' = sent + 1 /\ pos' = pos + 1
-           /\ UNCHANGED <<tr, stuck, docs, owed, wire>>
+           /\ UNCHANGED <<tr, stuck, lastPub, docs, owed, wire>>
 
 Resp(e) ==
   LET q == DrainQueue(inflight)
@@ -77,7 +78,7 @@ Resp(e) ==
           \* still checked); only events that do not fit the state machine at all stop the walk
           /\ (IF why = "" THEN TRUE ELSE PrintT(<<"AT", tr, pos, why>>))
           /\ docs' = d /\ owed' = o /\ inflight' = Tail(q) /\ pos' = pos + 1
-          /\ UNCHANGED <<tr, stuck, wire, sent>>
+          /\ UNCHANGED <<tr, stuck, lastPub, wire, sent>>
 
 Pub(e) ==
   LET q == DrainQueue(inflight)
@@ -88,6 +89,7 @@ Pub(e) ==
      THEN Stop(IF \E x \in o : x.uri = e.uri THEN "publish-wrong-ranges" ELSE "publish-not-owed")
      ELSE \E x \in match :
             /\ docs' = d /\ owed' = o \ {x} /\ inflight' = q /\ pos' = pos + 1
+            /\ lastPub' = [u \in (DOMAIN lastPub) \cup {e.uri} |-> IF u = e.uri THEN e.ranges ELSE lastPub[u]]
             /\ UNCHANGED <<tr, stuck, wire, sent>>
 
 Finish ==   \* all events consumed: the executor waited for quiescence, so nothing may be missing
@@ -95,6 +97,9 @@ Finish ==   \* all events consumed: the executor waited for quiescence, so nothi
       o == DrainOwed(owed, inflight)
   IN IF q # <<>> THEN Stop("request-never-answered")
      ELSE IF o # {} THEN Stop("publication-missing")
+     \* FinalPublishFresh: the last publication read for a uri shows the errors of its latest text
+     ELSE IF \E u \in DOMAIN docs : u \in DOMAIN lastPub /\ ~DiagOK(docs[u].text, docs[u].errs, lastPub[u])
+          THEN Stop("stale-final-publication")
      ELSE Stop("DONE")
 
 TNext == /\ stuck = ""
